@@ -126,6 +126,26 @@ func (e *Engine) evalGhostCall(c *FnCtx, env *Env, x *ECall) (Val, bool) {
 	case "cbfn":
 		n := c.eval(env, x.Args[0])
 		return Val{T: types.Typ[types.UnsafePointer], E: "(select " + c.heapGet(env.st, c.comp("ghost$cbfn", "(Array Int Int)")) + " " + n.E + ")"}, true
+	case "cbargIface":
+		n := c.eval(env, x.Args[0])
+		k := x.Args[1].(*EInt).V
+		return Val{T: types.NewInterfaceType(nil, nil), E: "(select " + c.heapGet(env.st, c.comp("ghost$cbarg$Iface$"+k, "(Array Int Iface)")) + " " + n.E + ")"}, true
+	case "cbheld", "cbheldW", "cbgen":
+		// lock state at the n-th logged callback: cbheld(n, mu) / cbheldW(n, mu); cbgen(n, mu) = acquisition number
+		n := c.eval(env, x.Args[0])
+		mu := c.eval(env, x.Args[1])
+		m := mu.E
+		if mu.Loc != nil {
+			m = c.ptrTerm(mu)
+		}
+		if x.Fun == "cbgen" {
+			return Val{T: tMath, E: "(select (select " + c.heapGet(env.st, c.comp("ghost$cblockgen", "(Array Int (Array Int Int))")) + " " + n.E + ") " + m + ")"}, true
+		}
+		ls := "(select (select " + c.heapGet(env.st, c.comp("ghost$cblock", "(Array Int (Array Int Int))")) + " " + n.E + ") " + m + ")"
+		if x.Fun == "cbheldW" {
+			return Val{T: tBool, E: "(= " + ls + " (- 1))"}, true
+		}
+		return Val{T: tBool, E: "(not (= " + ls + " 0))"}, true
 	case "cbresIface", "cbresInt", "cbresBool":
 		n := c.eval(env, x.Args[0])
 		k := x.Args[1].(*EInt).V
